@@ -1,7 +1,7 @@
 (* Properties/C01.v — ancestor sets are the exact transitive closure (C01).
    Only statements; every proof is `exact <lemma>`. *)
 From Coq Require Import Relations.
-From HpoV Require Import Model.Base Run.World Run.C01 Proofs.C01P.
+From HpoV Require Import Gen.Consts Model.Base Model.Group Model.Onto Run.World Run.C01 Proofs.C01P Proofs.ClosureP.
 
 (* An observation of an ontology (per term: id, parents, children, all ancestors, as the read
    API reports them) that passes the executable statement [closure_ok] — which the check
@@ -25,7 +25,49 @@ Proof. exact children_inverse. Qed.
 Theorem C01_matrix_is_membership : forall m ts, matrix_eqb m (matrix_ref ts) = true -> m = matrix_ref ts.
 Proof. exact (fun m ts => matrix_eqb_eq m (matrix_ref ts)). Qed.
 
+(* ---- about the Gallina transcription of builder.rs (Model/Onto.v), for EVERY arena ---- *)
+
+(* connect_all_terms / create_cache_of_grandparents / all_grandparents: whenever the (fuelled)
+   recursion returns — every fuel, every insertion order, every id assignment, any DAG shape —
+   names, parents, children and flags are untouched and every term's cache is EXACTLY the
+   transitive closure of the direct-parent relation.  The memoisation heuristic
+   (parents_cached) is sound because a term with parents has a non-empty closure. *)
+Theorem C01_model_cache_is_transitive_closure : forall fuel a a',
+  wf_ar a -> (forall t, In t (ar_terms a) -> t_allp t = []) -> connect_all fuel a = Ok a' ->
+  same_but_allp a a' /\
+  forall t', In t' (ar_terms a') -> forall x, In x (t_allp t') <-> clos_trans N (parent_rel a) (t_id t') x.
+Proof. exact connect_all_exact. Qed.
+
+(* one call of create_cache_of_grandparents, under the invariant "every cache is empty or exact" *)
+Theorem C01_model_create_cache : forall fuel a id a', wf_ar a -> Inv a -> In id (ar_keys a) ->
+  create_cache fuel a id = Ok a' ->
+  step a a' /\ (forall t', In t' (ar_terms a') -> t_id t' = id -> exact a' t').
+Proof. exact create_cache_spec. Qed.
+
+(* never the term itself, on every graph that admits a rank function (acyclic) *)
+Theorem C01_model_never_self : forall a, ranked a -> forall c, ~ clos_trans N (parent_rel a) c c.
+Proof. exact ranked_irreflexive. Qed.
+
+(* the arenas the Builder produces satisfy the hypotheses: Arena::insert and every successful
+   add_parent keep ids unique and in range, links resolving, caches empty and children the exact
+   inverse of parents; a successful add_parent adds exactly that one link *)
+Theorem C01_model_builder_insert : forall a t a', binv a -> t_parents t = [] -> t_children t = [] -> t_allp t = [] ->
+  ar_insert t a = Ok a' -> binv a'.
+Proof. exact binv_insert. Qed.
+Theorem C01_model_builder_add_parent : forall o parent child o', binv (o_arena o) -> b_add_parent parent child o = Ok o' ->
+  binv (o_arena o') /\
+  (forall c p, parent_rel (o_arena o') c p <-> parent_rel (o_arena o) c p \/ (c = child /\ p = parent)).
+Proof. exact binv_add_parent. Qed.
+Theorem C01_model_children_inverse : forall a, binv a -> forall c p, parent_rel a c p <-> child_rel a p c.
+Proof. exact b_inverse. Qed.
+
 Print Assumptions C01_closure_exact.
+Print Assumptions C01_model_cache_is_transitive_closure.
+Print Assumptions C01_model_create_cache.
+Print Assumptions C01_model_never_self.
+Print Assumptions C01_model_builder_insert.
+Print Assumptions C01_model_builder_add_parent.
+Print Assumptions C01_model_children_inverse.
 Print Assumptions C01_never_self.
 Print Assumptions C01_children_inverse.
 Print Assumptions C01_matrix_is_membership.
